@@ -549,6 +549,7 @@ func runC10(c *Ctx) {
 	}
 	c10ReplyMaps(c)
 	c10ListPages(c)
+	c10OwnerGiven(c)
 	// texts as given: what a handler's own RealPath / Readlink returns is the handler's answer - with a trailing slash, doubled
 	// slashes, dot segments, relative - and reaches the client byte for byte (the server cleans what it hands TO handlers, not what
 	// they hand back)
